@@ -1151,7 +1151,7 @@ func partL(keys []string) (infra string) {
 			go io.Copy(io.Discard, c)
 		}
 	}()
-	insts := []string{"a", "b", "", "c", "z"} // node 4 (instance z) lives on the second endpoint
+	insts := []string{"a", "b", "", "c", "z", "y"} // node 4 (instance z) lives on the second endpoint; node 5 (instance y) is only ever the target of an instance-only address update
 	node := func(i int) ref.RingNode {
 		return ref.RingNode{Host: "127.0.0.1", Inst: insts[i], HasInst: insts[i] != ""}
 	}
@@ -1166,7 +1166,7 @@ func partL(keys []string) (infra string) {
 	}
 	online := func(ds ...*destination.Destination) bool {
 		// barrier, not an oracle: Flush is answered by the relay loop, which also owns Online
-		limit := time.Now().Add(60 * time.Second)
+		limit := time.Now().Add(300 * time.Second)
 		for _, d := range ds {
 			for d.Flush(); !d.Online; d.Flush() {
 				if time.Now().After(limit) {
@@ -1220,7 +1220,7 @@ func partL(keys []string) (infra string) {
 	for _, n := range []int{2, 3} {
 		for _, cmb := range combos(4, n) {
 			for _, perm := range perms(cmb) {
-				for variant := 0; variant <= 2*n; variant++ { // remove index variant; variant == n: add the first node left out; beyond: move destination variant-n-1 to the second endpoint
+				for variant := 0; variant <= 4*n; variant++ { // remove index variant; variant == n: add the first node left out; n+1..2n: move destination variant-n-1 to the second endpoint; 2n+1..3n: give destination variant-2n-1 another instance on the same endpoint; 3n+1..4n: take its instance away
 					var ds []*destination.Destination
 					for _, m := range perm {
 						ds = append(ds, realDest(addr(m)))
@@ -1231,7 +1231,7 @@ func partL(keys []string) (infra string) {
 					}
 					r := rr.(*route.ConsistentHashing)
 					if !online(ds...) {
-						return "part L: a destination did not come online on loopback within 60 s"
+						return fmt.Sprintf("part L: a destination did not come online on loopback within 300 s (site 1, selection %v variant %d)", perm, variant)
 					}
 					members := append([]int(nil), perm...)
 					desc := fmt.Sprintf("destinations %v", func() (o []string) {
@@ -1265,13 +1265,33 @@ func partL(keys []string) (infra string) {
 							}
 						}
 					}
-					if variant > n {
+					if variant > 2*n {
+						j, to := variant-2*n-1, 5
+						if variant > 3*n {
+							j, to = variant-3*n-1, 2
+						}
+						if err := r.UpdateDestination(j, map[string]string{"addr": addr(to)}); err != nil {
+							return "part L: UpdateDestination: " + err.Error()
+						}
+						if !online(ds[j]) {
+							return fmt.Sprintf("part L: a destination did not come online on loopback within 300 s (%s, instance-only update of %d to %q)", desc, j, insts[to])
+						}
+						members[j] = to
+						dup := false // the update may produce a (host, instance) pair another destination already has: not a configuration the property speaks about
+						for i, m := range members {
+							dup = dup || (i != j && m == to)
+						}
+						if !dup {
+							compare(r, members, fmt.Sprintf("%s after UpdateDestination(%d, addr=<same endpoint>:%s)", desc, j, insts[to]))
+							checkHeld(fmt.Sprintf("%s after UpdateDestination(%d, instance only)", desc, j))
+						}
+					} else if variant > n {
 						j := variant - n - 1
 						if err := r.UpdateDestination(j, map[string]string{"addr": addr(4)}); err != nil {
 							return "part L: UpdateDestination: " + err.Error()
 						}
 						if !online(ds[j]) {
-							return "part L: a destination did not come online on loopback within 60 s"
+							return fmt.Sprintf("part L: a destination did not come online on loopback within 300 s (site 2, %s)", desc)
 						}
 						members[j] = 4
 						compare(r, members, fmt.Sprintf("%s after UpdateDestination(%d, addr=<second endpoint>:z)", desc, j))
@@ -1298,7 +1318,7 @@ func partL(keys []string) (infra string) {
 						r.Add(d)
 						members = append(members, left)
 						if !online(d) {
-							return "part L: a destination did not come online on loopback within 60 s"
+							return fmt.Sprintf("part L: a destination did not come online on loopback within 300 s (site 3, %s)", desc)
 						}
 						compare(r, members, fmt.Sprintf("%s after Add(%s)", desc, node(left)))
 						checkHeld(fmt.Sprintf("%s after Add(%s)", desc, node(left)))
@@ -1308,7 +1328,7 @@ func partL(keys []string) (infra string) {
 			}
 		}
 	}
-	tal.sample(map[string]interface{}{"part": "L", "what": "ordered selections of 2..3 of {127.0.0.1/a, /b, /-, /c} connected to a live loopback endpoint; ring compared with Carbon's once online, after every DelDestination(i), after Add, and after every UpdateDestination(i, addr=<second endpoint with instance z>)", "keys": len(keys)})
+	tal.sample(map[string]interface{}{"part": "L", "what": "ordered selections of 2..3 of {127.0.0.1/a, /b, /-, /c} connected to a live loopback endpoint; ring compared with Carbon's once online, after every DelDestination(i), after Add, after every UpdateDestination(i, addr=<second endpoint with instance z>), and after every UpdateDestination(i, addr=<same endpoint> with another instance / without instance)", "keys": len(keys)})
 	return ""
 }
 
